@@ -82,7 +82,7 @@ def clipped (L : Int) (sp : Int × Int) : Option (Int × Int) :=
 def locOk (L : Int) (c : Int × Int) : List MSpan :=
   if c.2 > L then [.span c.1 (min c.2 L), .lost (c.2 - L)] else [.span c.1 c.2]
 
-theorem clip_some (L s e : Int) (hL : 0 < L) (hse : s < e) (c : Int × Int)
+theorem clip_some (L s e : Int) (hL : 0 < L) (hse : s ≤ e) (c : Int × Int)
     (h : clipSpan L (s, e) = some c) :
     0 ≤ c.1 ∧ c.1 ≤ c.2 ∧ c.1 ≤ L ∧ c.1 = max s 0 ∧ min c.2 L = min e L ∧ max s 0 < min e L := by
   unfold clipSpan at h
@@ -91,7 +91,7 @@ theorem clip_some (L s e : Int) (hL : 0 < L) (hse : s < e) (c : Int × Int)
   obtain ⟨c1, c2⟩ := c
   (repeat' split at h) <;> simp only [Option.some.injEq, reduceCtorEq, Prod.mk.injEq] at h <;> simp only [] <;> omega
 
-theorem clip_none (L s e : Int) (hse : s < e) (h : clipSpan L (s, e) = none) :
+theorem clip_none (L s e : Int) (hse : s ≤ e) (h : clipSpan L (s, e) = none) :
     ¬ (max s 0 < min e L) := by
   unfold clipSpan at h
   simp only [] at h
@@ -99,7 +99,7 @@ theorem clip_none (L s e : Int) (hse : s < e) (h : clipSpan L (s, e) = none) :
   (repeat' split at h) <;> simp only [reduceCtorEq] at h
   omega
 
-theorem clipSpan_clipped (L : Int) (hL : 0 < L) (sp : Int × Int) (hse : sp.1 < sp.2) :
+theorem clipSpan_clipped (L : Int) (hL : 0 < L) (sp : Int × Int) (hse : sp.1 ≤ sp.2) :
     (clipSpan L sp).map (fun c => (c.1, min c.2 L)) = clipped L sp := by
   obtain ⟨s, e⟩ := sp
   simp only [] at hse
@@ -111,7 +111,7 @@ theorem clipSpan_clipped (L : Int) (hL : 0 < L) (sp : Int × Int) (hse : sp.1 < 
     simp only [Option.map_some, h5, if_true, Option.some.injEq, Prod.mk.injEq]
     exact ⟨h3, h4⟩
 
-theorem locate_clip (L s e : Int) (hL : 0 < L) (hse : s < e) (c : Int × Int)
+theorem locate_clip (L s e : Int) (hL : 0 < L) (hse : s ≤ e) (c : Int × Int)
     (hc : clipSpan L (s, e) = some c) : locate L c = .ok (locOk L c) := by
   obtain ⟨h0, h1, h2, _, _, _⟩ := clip_some L s e hL hse c hc
   unfold locate locOk
@@ -128,7 +128,7 @@ theorem realSpans_locOk (L : Int) (c : Int × Int) : realSpans (locOk L c) = [(c
     omega
 
 /-- one span, full strength: the real part is exactly span ∩ view; never an error -/
-theorem clipLocate_exact (L s e : Int) (hL : 0 < L) (hse : s < e) :
+theorem clipLocate_exact (L s e : Int) (hL : 0 < L) (hse : s ≤ e) :
     ∃ m, clipLocate L (s, e) = .ok m ∧
       realSpans m = (if max s 0 < min e L then [(max s 0, min e L)] else []) ∧
       (∀ a b, MSpan.span a b ∈ m → 0 ≤ a ∧ a ≤ b ∧ b ≤ L) := by
@@ -204,7 +204,7 @@ theorem mem_realSpans {m : List MSpan} {a b : Int} : (a, b) ∈ realSpans m ↔ 
   · intro h; exact ⟨_, h, rfl⟩
 
 /-- the kept spans are located without error -/
-theorem kept_locate (L : Int) (hL : 0 < L) (rel : List (Int × Int)) (hrel : ∀ sp ∈ rel, sp.1 < sp.2) :
+theorem kept_locate (L : Int) (hL : 0 < L) (rel : List (Int × Int)) (hrel : ∀ sp ∈ rel, sp.1 ≤ sp.2) :
     mapExcept (locate L) (rel.filterMap (clipSpan L)) = .ok ((rel.filterMap (clipSpan L)).map (locOk L)) := by
   apply mapExcept_eq_map
   intro c hc
@@ -212,7 +212,7 @@ theorem kept_locate (L : Int) (hL : 0 < L) (rel : List (Int × Int)) (hrel : ∀
   obtain ⟨s, e⟩ := sp
   exact locate_clip L s e hL (hrel _ h1) c h2
 
-theorem realSpans_kept (L : Int) (hL : 0 < L) (rel : List (Int × Int)) (hrel : ∀ sp ∈ rel, sp.1 < sp.2) :
+theorem realSpans_kept (L : Int) (hL : 0 < L) (rel : List (Int × Int)) (hrel : ∀ sp ∈ rel, sp.1 ≤ sp.2) :
     realSpans ((rel.filterMap (clipSpan L)).map (locOk L)).flatten = rel.filterMap (clipped L) := by
   rw [realSpans_flatten]
   induction rel with
@@ -297,11 +297,11 @@ theorem head_getLast_pairwise {α} (R : α → α → Prop) (l : List α) (h : l
         exact List.mem_of_getLast? hx
       exact (List.pairwise_cons.mp h).1 x hmem
 
-theorem firstLastOk_kept (L : Int) (hL : 0 < L) (rel : List (Int × Int)) (hrel : ∀ sp ∈ rel, sp.1 < sp.2)
+theorem firstLastOk_kept (L : Int) (hL : 0 < L) (rel : List (Int × Int)) (hrel : ∀ sp ∈ rel, sp.1 ≤ sp.2)
     (hsorted : rel.Pairwise (fun a b => a.1 ≤ b.1)) :
     firstLastOk (rel.filterMap (clipSpan L)) = true := by
   have hp : (rel.filterMap (clipSpan L)).Pairwise (fun a b => a.1 ≤ b.1 ∧ b.1 ≤ b.2) := by
-    have hs2 : rel.Pairwise (fun a b => a.1 ≤ b.1 ∧ a.1 < a.2 ∧ b.1 < b.2) := by
+    have hs2 : rel.Pairwise (fun a b => a.1 ≤ b.1 ∧ a.1 ≤ a.2 ∧ b.1 ≤ b.2) := by
       have := List.Pairwise.and_mem.mp hsorted
       exact this.imp (fun ⟨ha, hb, hab⟩ => ⟨hab, hrel _ ha, hrel _ hb⟩)
     refine List.Pairwise.filterMap (clipSpan L) ?_ hs2
@@ -331,7 +331,7 @@ theorem firstLastOk_kept (L : Int) (hL : 0 < L) (rel : List (Int × Int)) (hrel 
 /-- `make_feature`, full strength: no exception, and the real spans of the map are exactly the
 intersections of the spans with the view (mirrored and in reverse order on an rc'd view) -/
 theorem makeFeature_spec (L : Int) (rced minus : Bool) (rel : List (Int × Int)) (hL : 0 < L)
-    (hrel : ∀ sp ∈ rel, sp.1 < sp.2) (hsorted : rel.Pairwise (fun a b => a.1 ≤ b.1)) :
+    (hrel : ∀ sp ∈ rel, sp.1 ≤ sp.2) (hsorted : rel.Pairwise (fun a b => a.1 ≤ b.1)) :
     ∃ f, makeFeature L rced minus rel = .ok f ∧ f.reversed = (minus != rced) ∧
       realSpans f.spans =
         (if rced then ((rel.filterMap (clipped L)).map (fun p => (L - p.2, L - p.1))).reverse
